@@ -147,6 +147,21 @@ def run(prop, tier, seed, replay):
                         # the last measurement must not find trees of the nearly equal binning acceptable
                         script = [((m, b2), 0), ((m, b1), 0)]
                     length = len(script)
+                no_model = False
+                if hi % 4 == 2:
+                    # stratum: the patches of one cache do NOT all hold trees for the same binning (a single patch was
+                    # rebuilt through BinnedTrees.build, as an interrupted catalog-wide build leaves it) — the patch that
+                    # is looked at first already matches the binning measured next
+                    b1 = (rng.choice(EDGE_SETS), rng.choice(["left", "right"]))
+                    b2 = b1
+                    while b2 == b1:
+                        b2 = (rng.choice(EDGE_SETS), rng.choice(["left", "right"]))
+                    m = rng.choice(["auto", "cross"])
+                    script = [((m, b2), 0), (("pbuild", "D", 0, b1), 0), (("pbuild", "R", 0, b1), 0), ((m, b1), 0)]
+                    if hi % 8 == 6:
+                        script.insert(1, (("pbuild", "D", -1, b1), 0))
+                    length = len(script)
+                    no_model = True       # per-patch histories differ: only the final result is compared
                 ops, model_ops = [], {k: [] for k in cats}
                 states = {k: [] for k in cats}
                 rep = {"history": [], "samples": {k: {a: np.asarray(v).tolist() for a, v in s.items() if a in ("ra", "dec", "z")}
@@ -168,6 +183,14 @@ def run(prop, tier, seed, replay):
                         pick(k).build_trees(None if b is None else b[0], closed="right" if b is None else b[1], force=force)
                         model_ops[k].append(f"b {enc_bin(b)} {int(force)}")
                         touched = [k]
+                    elif kind == "pbuild":
+                        _, k, which, b = op
+                        from yaw.binning import Binning
+                        from yaw.catalog.trees import BinnedTrees
+                        cat_ = pick(k)
+                        pid = sorted(cat_.keys())[which]
+                        BinnedTrees.build(cat_[pid], Binning(np.asarray(b[0], dtype=float), closed=b[1]))
+                        touched = []
                     elif kind == "reopen":
                         _, k = op
                         # a second handle on the same cache; the older handles stay alive and keep being used
@@ -247,7 +270,7 @@ def run(prop, tier, seed, replay):
                                      f"measurement on fresh caches (final: {rep['history'][-1]})", rep)
                     continue
                 for k in cats:
-                    if model_ops[k]:
+                    if model_ops[k] and not no_model:
                         reqs.append(f"h{hi}{k} hist {len(model_ops[k])} " + " ".join(model_ops[k]))
                         expect.append((states[k], rep, k))
     finally:
